@@ -7,7 +7,7 @@ from typing import Any
 
 from symex.case import Case
 from symex.values import SList
-from entity_query_language import an, entity, set_of, let, symbolic_mode, symbol, flatten, and_, not_
+from entity_query_language import an, entity, set_of, let, symbolic_mode, symbol, flatten, and_, not_, predicate
 
 ASSUMPTIONS = [
     "each parent's inner collection is a list over a shared candidate pool whose MEMBERSHIP is symbolic (so empty, overlapping "
@@ -49,8 +49,25 @@ class Elem:
         return self.w <= other
 
 
+@predicate
+def first_above(a, b, k):
+    """Two values that must come from the SAME element; only the first decides."""
+    return a > k
+
+
+@predicate
+def both_same(a, b):
+    return a == b
+
+
 def build_cond(c, p, e):
     k = c[0]
+    if k == "PP":       # a predicate with two arguments derived from the same flattened element
+        return first_above(e.w, e.w, c[1])
+    if k == "PS":
+        return both_same(e.w, e.w)
+    if k == "PPk":      # ... one from the element, one from its parent
+        return first_above(e.w, p.k, c[1])
     if k == "e>":
         return e.w > c[1]
     if k == "p>":
@@ -74,6 +91,10 @@ def build_cond(c, p, e):
 
 def holds(alg, c, po, eo):
     k = c[0]
+    if k in ("PP", "PPk"):
+        return alg.cmp("gt", eo.w, c[1])
+    if k == "PS":
+        return alg.const(True)
     if k == "e>":
         return alg.cmp("gt", eo.w, c[1])
     if k == "p>":
@@ -261,7 +282,12 @@ def shapes(tier, seed):
               ["and", ["E>", 0], ["not", ["E>", 2]]]]
     for c in direct:
         for sel, form in sels[:4]:
-            out.append(dict(parents=np_, cands=nc, cond=c, select=sel, form=form))
+            out.append(dict(parents=np_, cands=3, cond=c, select=sel, form=form))
+    # predicates taking several values of one flattened element
+    preds = [["PP", 1], ["PS"], ["PPk", 0], ["and", ["p>", 0], ["PP", 1]], ["or", ["PP", 2], ["p>", 1]]]
+    for c in preds:
+        for sel, form in sels[:4]:
+            out.append(dict(parents=np_, cands=3, cond=c, select=sel, form=form))
     conds = conds + direct
     for c in conds[1:]:
         out.append(dict(parents=np_, cands=nc, cond=c, select=["p", "e"], form="set_of", twice=True))
